@@ -76,6 +76,15 @@ RECURSION += [
     ("replace-fn+eval", "function r(){ return 'a'.replace(/a/, function(){ return eval('r()'); }); } r();"),
     ("JSON-getter+eval", "var o = { get p(){ return eval('JSON.stringify(o)'); } }; JSON.stringify(o);"),
 ]
+# the callback-taking built-ins reached through another object than their usual receiver: borrowed with call/apply, inherited by an
+# object created from the prototype, taken off the prototype object itself
+for _m, _args in (("sort", "function (a, b) { return f(); }"), ("map", "function () { return f(); }"), ("forEach", "function () { f(); }"), ("filter", "function () { return f(); }"),
+                  ("reduce", "function (a) { return f(); }, 0"), ("some", "function () { return f(); }"), ("find", "function () { return f(); }")):
+    RECURSION.append(("borrowed-call:" + _m, "function f() { return Array.prototype.%s.call([2, 1, 3], %s); } f();" % (_m, _args)))
+    RECURSION.append(("inherited:" + _m, "var inh = Object.create(Array.prototype).%s; function f() { return inh.call([2, 1, 3], %s); } f();" % (_m, _args)))
+    RECURSION.append(("borrowed-apply:" + _m, "var bm = [].%s; function f() { return bm.apply([2, 1, 3], [%s]); } f();" % (_m, _args)))
+RECURSION += [("borrowed-call:replace", "var rp = ''.replace; function f() { return rp.call('a', 'a', function () { return f(); }); } f();"),
+              ("conversion-in-join", "var o = {toString: function () { return [o].join(); }}; '' + o;"), ("conversion-in-stringify", "var js = JSON.stringify; var o = {get p() { return js.call(null, o); }}; js(o);")]
 # plain script-to-script recursion (which never touches native code again) STARTED from inside script code that native code
 # invoked: the accounting has to go on in whichever interpreter loop runs the callee
 _PLAIN = {"self": "function r(n){ return r(n + 1); }", "operands": "function r(n){ return 1 + r(n + 1); }", "mutual": "function r(n){ return r2(n + 1); } function r2(n){ return r(n + 1); }",
@@ -91,6 +100,7 @@ for _pn, _p in _PLAIN.items():
     for _en, _e in _ENTRIES.items():
         RECURSION.append(("entered-from:%s/%s" % (_en, _pn), _p + " " + _e))
 MS = [20000, 100000, 1000000, 10000000]
+PINNED_SHAPES = {"conversion-in-join", "conversion-in-stringify"}
 
 
 def bounded_bodies(ctx):
@@ -287,6 +297,8 @@ def main(ctx):
         for M in (MS if not ctx.quick else [20000, 1000000, 10000000]):
             rcases.append({"id": h(["rec", name, M]), "name": name, "M": M, "src": src})
         for _ in range(1 if ctx.quick else 4):
+            if name in PINNED_SHAPES:
+                continue      # listed finding: pinned to the fixed limits (a random limit would be a cell nobody listed)
             M = rng.randint(5000, 3000000)
             rcases.append({"id": h(["rec", name, M]), "name": name, "M": M, "src": src})
     bodies = bounded_bodies(ctx)
@@ -328,6 +340,10 @@ def main(ctx):
             ctx.nontrivial(c["id"])
             if r["max_acc"] > c["M"] + 1000:
                 ctx.violation(("limit-overshoot", c["name"]), {"case": c, "max_accounted": r["max_acc"], "monitor": "hook: accounted usage"})
+            continue
+        if c["name"].split(":")[0] in ("borrowed-call", "borrowed-apply", "inherited") and (r["out"] == "ok" or (r["out"] == "jserr" and cls == "JSError")):
+            # this engine does not run a borrowed/inherited built-in on the receiver given with call/apply (nothing recurses, the script
+            # returns or gets a TypeError): only a crash, a hang or a host exception is judged for these shapes
             continue
         key = "recursion-outcome:" + str(cls or r["out"]) + ":" + str(r.get("abort") or "")
         if ctx.known_cell(c["id"], h(key, 10)):
